@@ -1483,4 +1483,226 @@ theorem readBackF_eq {α} (out : List (OutPage α)) (h : ∀ o ∈ out, o.exposu
   intro o ho
   rw [exposure_roundtrip_core o.exposure (h o ho)]
 
+/-! ## Part VI — tuple index, invariants of selection programs -/
+
+/-- Every raw page of the file has `H` rows of `W` pixels. -/
+def File.Shaped {α} (f : File α) (H W : Nat) : Prop :=
+  ∀ p ∈ f.pages, p.img.length = H ∧ ∀ row ∈ p.img, row.length = W
+
+/-! ## tuple index = crop, then frame item -/
+
+theorem sliceFrames_roi (s : Stack) (r : Roi) (a b c : Option Int) :
+    Stack.sliceFrames { s with roi := r } a b c = (s.sliceFrames a b c).map fun t => { t with roi := r } := by
+  obtain ⟨s0, s1, st, roi⟩ := s
+  unfold Stack.sliceFrames Stack.numFrames
+  dsimp only
+  split_ifs <;> rfl
+
+theorem index_roi (s : Stack) (r : Roi) (i : Int) :
+    Stack.index { s with roi := r } i = (s.index i).map fun t => { t with roi := r } := by
+  obtain ⟨s0, s1, st, roi⟩ := s
+  unfold Stack.index Stack.numFrames
+  dsimp only
+  split_ifs <;> rfl
+
+theorem frameItem_roi (s : Stack) (r : Roi) (f : Item) :
+    Stack.frameItem { s with roi := r } f = (s.frameItem f).map fun t => { t with roi := r } := by
+  cases f with
+  | int i => exact index_roi s r i
+  | slice a b c => exact sliceFrames_roi s r a b c
+
+/-- `stack[f, rows, cols]` is `stack.crop_by_pixels(cols…, rows…)[f]`, refusals included (the crop is tried first). -/
+theorem tuple_index_eq (s : Stack) (f rows cols : Item) (x0 x1 y0 y1 : Option Int)
+    (hr : interpretCrop rows = .ok (y0, y1)) (hc : interpretCrop cols = .ok (x0, x1)) :
+    s.getitemTuple [f, rows, cols] = (s.cropPixels x0 x1 y0 y1).bind fun s' => s'.frameItem f := by
+  unfold Stack.getitemTuple Stack.cropPixels
+  simp only [List.length_cons, List.length_nil, List.getElem?_cons_zero, List.getElem?_cons_succ, cropOf, hr, hc]
+  simp only [bind, Except.bind, Except.map, pure, Except.pure]
+  cases hcrop : s.roi.crop x0 x1 y0 y1 with
+  | error e => rfl
+  | ok r =>
+    simp only []
+    have key : Stack.frameItem { s0 := s.s0, s1 := s.s1, st := s.st, roi := r } f
+        = (s.frameItem f).map fun t => { t with roi := r } := frameItem_roi s r f
+    rw [key]
+    cases s.frameItem f <;> rfl
+
+
+/-! ## the hypotheses of the selection theorems are established by the code -/
+
+/-- What the selection / re-export theorems assume of a stack over a file of `H × W` pages. -/
+def Stack.Inv {α} (s : Stack) (f : File α) (H W : Nat) : Prop :=
+  0 < s.st ∧ s.inFile f.pages.length = true ∧ s.roi.Within H W
+
+/-- `ImageStack(file)` establishes them. -/
+theorem ofFile_inv {α} (f : File α) (H W : Nat) (hf : f.Shaped H W) (hne : f.pages ≠ []) (hH : 0 < H) (hW : 0 < W) :
+    (Stack.ofFile f).Inv f H W := by
+  obtain ⟨pages, leg⟩ := f
+  cases pages with
+  | nil => exact absurd rfl hne
+  | cons p0 ps =>
+    have h0 := hf p0 (List.mem_cons_self ..)
+    have hrow : ((p0.img.head?).map List.length).getD 0 = W := by
+      cases hi : p0.img with
+      | nil => rw [hi] at h0; simp at h0; omega
+      | cons r0 rs => simp [h0.2 r0 (by rw [hi]; exact List.mem_cons_self ..)]
+    have hst : Stack.ofFile (⟨p0 :: ps, leg⟩ : File α) = ⟨0, ((p0 :: ps).length : Nat), 1, ⟨0, (W : Nat), 0, (H : Nat)⟩⟩ := by
+      unfold Stack.ofFile
+      simp [h0.1, hrow]
+    rw [hst]
+    refine ⟨by simp, ?_, ?_⟩
+    · unfold Stack.inFile
+      rw [frames_full, List.all_eq_true]
+      intro q hq
+      rw [List.mem_map] at hq
+      obtain ⟨i, hi, rfl⟩ := hq
+      rw [List.mem_range] at hi
+      simp only [Bool.and_eq_true, decide_eq_true_eq]
+      omega
+    · unfold Roi.Within; simp; omega
+
+/-- A frame slice that is accepted had a positive step (zero: `ValueError`; negative: "Slice is empty" or "Reverse
+    slicing is not supported"). -/
+theorem sliceFrames_ok_step (s : Stack) (hst : 0 < s.st) (a b c : Option Int) (s' : Stack)
+    (h : s.sliceFrames a b c = .ok s') : 0 < c.getD 1 := by
+  obtain ⟨s0, s1, st, roi⟩ := s
+  unfold Stack.sliceFrames at h
+  dsimp only at h
+  by_contra hc
+  have hle : c.getD 1 ≤ 0 := not_lt.mp hc
+  split_ifs at h with h0 h1 h2
+  have : st * c.getD 1 < 0 := by
+    have : c.getD 1 < 0 := by omega
+    exact Int.mul_neg_of_pos_of_neg hst this
+  exact h2 this
+
+theorem sliceFrames_inv {α} (s : Stack) (f : File α) (H W : Nat) (hi : s.Inv f H W) (a b c : Option Int) (s' : Stack)
+    (h : s.sliceFrames a b c = .ok s') : s'.Inv f H W := by
+  obtain ⟨hst, hin, hr⟩ := hi
+  have hc := sliceFrames_ok_step s hst a b c s' h
+  have h0 := slice_refines s hst a b c hc
+  rw [h] at h0
+  simp only at h0
+  obtain ⟨hfr, _, hst', hroi⟩ := h0
+  refine ⟨hst', ?_, by rw [hroi]; exact hr⟩
+  unfold Stack.inFile at hin ⊢
+  rw [List.all_eq_true] at hin ⊢
+  intro p hp
+  rw [hfr] at hp
+  exact hin p (mem_of_mem_pySliceStep hp)
+
+theorem index_inv {α} (s : Stack) (f : File α) (H W : Nat) (hi : s.Inv f H W) (i : Int) (s' : Stack)
+    (h : s.index i = .ok s') : s'.Inv f H W := by
+  obtain ⟨hst, hin, hr⟩ := hi
+  have h0 := index_refines s hst i
+  rw [h] at h0
+  cases hp : pyIndex s.frames i with
+  | none => rw [hp] at h0; exact absurd h0 id
+  | some p =>
+    rw [hp] at h0
+    simp only at h0
+    obtain ⟨hfr, hst', hroi⟩ := h0
+    have hmem : p ∈ s.frames := by
+      unfold pyIndex at hp
+      split_ifs at hp
+      · exact List.mem_of_getElem? hp
+      · exact List.mem_of_getElem? hp
+    refine ⟨by rw [hst']; exact hst, ?_, by rw [hroi]; exact hr⟩
+    unfold Stack.inFile at hin ⊢
+    rw [List.all_eq_true] at hin ⊢
+    intro q hq
+    rw [hfr, List.mem_singleton] at hq
+    subst hq
+    exact hin _ hmem
+
+theorem frameItem_inv {α} (s : Stack) (f : File α) (H W : Nat) (hi : s.Inv f H W) (it : Item) (s' : Stack)
+    (h : s.frameItem it = .ok s') : s'.Inv f H W := by
+  cases it with
+  | int i => exact index_inv s f H W hi i s' h
+  | slice a b c => exact sliceFrames_inv s f H W hi a b c s' h
+
+theorem roi_crop_within (r : Roi) (H W : Nat) (hr : r.Within H W) (x0 x1 y0 y1 : Option Int) (r' : Roi)
+    (h : r.crop x0 x1 y0 y1 = .ok r') : r'.Within H W := by
+  have := roi_crop_refines (List.replicate H (List.replicate W ())) H W (by simp)
+    (by intro row hrow; rw [List.mem_replicate] at hrow; rw [hrow.2]; simp) r hr x0 x1 y0 y1
+  rw [h] at this
+  exact this.2
+
+theorem cropPixels_inv {α} (s : Stack) (f : File α) (H W : Nat) (hi : s.Inv f H W) (x0 x1 y0 y1 : Option Int)
+    (s' : Stack) (h : s.cropPixels x0 x1 y0 y1 = .ok s') : s'.Inv f H W := by
+  obtain ⟨hst, hin, hr⟩ := hi
+  unfold Stack.cropPixels at h
+  cases hc : s.roi.crop x0 x1 y0 y1 with
+  | error e => rw [hc] at h; cases h
+  | ok r' =>
+    rw [hc] at h
+    cases h
+    exact ⟨hst, hin, roi_crop_within s.roi H W hr x0 x1 y0 y1 r' hc⟩
+
+/-- Whatever a tuple index accepts is a crop of the ROI and a frame item. -/
+theorem getitemTuple_ok (s : Stack) (items : List Item) (s' : Stack) (h : s.getitemTuple items = .ok s') :
+    ∃ fi x0 x1 y0 y1 r t, s.roi.crop x0 x1 y0 y1 = .ok r ∧ s.frameItem fi = .ok t ∧ s' = { t with roi := r } := by
+  unfold Stack.getitemTuple at h
+  cases items with
+  | nil => cases h
+  | cons fi rest =>
+    simp only at h
+    split_ifs at h
+    simp only [bind, Except.bind, pure, Except.pure] at h
+    cases hrows : cropOf rest[0]? with
+    | error e => rw [hrows] at h; cases h
+    | ok rows =>
+      rw [hrows] at h
+      simp only at h
+      cases hcols : cropOf rest[1]? with
+      | error e => rw [hcols] at h; cases h
+      | ok cols =>
+        rw [hcols] at h
+        simp only at h
+        cases hcrop : s.roi.crop cols.1 cols.2 rows.1 rows.2 with
+        | error e => rw [hcrop] at h; cases h
+        | ok r =>
+          rw [hcrop] at h
+          simp only at h
+          cases hfi : s.frameItem fi with
+          | error e => rw [hfi] at h; cases h
+          | ok t =>
+            rw [hfi] at h
+            simp only [Except.ok.injEq] at h
+            exact ⟨fi, cols.1, cols.2, rows.1, rows.2, r, t, hcrop, hfi, h.symm⟩
+
+theorem getitemTuple_inv {α} (s : Stack) (f : File α) (H W : Nat) (hi : s.Inv f H W) (items : List Item) (s' : Stack)
+    (h : s.getitemTuple items = .ok s') : s'.Inv f H W := by
+  obtain ⟨fi, x0, x1, y0, y1, r, t, hcrop, hfi, rfl⟩ := getitemTuple_ok s items s' h
+  obtain ⟨hst, hin, _⟩ := frameItem_inv s f H W hi fi t hfi
+  exact ⟨hst, hin, roi_crop_within s.roi H W hi.2.2 x0 x1 y0 y1 r hcrop⟩
+
+/-- Steps of the public API (everything but the private `from_dataset` bookkeeping). -/
+def Op.isPublic : Op → Bool
+  | .dataset .. => false
+  | _ => true
+
+theorem applyOp_inv {α} (s : Stack) (f : File α) (H W : Nat) (hi : s.Inv f H W) (op : Op) (hp : op.isPublic = true)
+    (s' : Stack) (h : s.applyOp op = .ok s') : s'.Inv f H W := by
+  cases op with
+  | slice a b c => exact sliceFrames_inv s f H W hi a b c s' h
+  | index i => exact index_inv s f H W hi i s' h
+  | crop x0 x1 y0 y1 => exact cropPixels_inv s f H W hi x0 x1 y0 y1 s' h
+  | tuple items => exact getitemTuple_inv s f H W hi items s' h
+  | dataset a b c => cases hp
+
+theorem run_inv {α} (f : File α) (H W : Nat) (ops : List Op) : ∀ (s : Stack), s.Inv f H W →
+    (∀ op ∈ ops, op.isPublic = true) → ∀ s', s.run ops = .ok s' → s'.Inv f H W := by
+  induction ops with
+  | nil => intro s hi _ s' h; unfold Stack.run at h; cases h; exact hi
+  | cons op rest ih =>
+    intro s hi hp s' h
+    unfold Stack.run at h
+    cases ha : s.applyOp op with
+    | error e => rw [ha] at h; cases h
+    | ok s1 =>
+      rw [ha] at h
+      exact ih s1 (applyOp_inv s f H W hi op (hp op (List.mem_cons_self ..)) s1 ha)
+        (fun o ho => hp o (List.mem_cons_of_mem _ ho)) s' h
+
 end Verif.C18
